@@ -2,9 +2,13 @@
    After the repair F5 the Go function ranges over no map whose order can reach its result; accordingly
    [merge] takes the list of files and the schema version and nothing else — no iteration-order argument
    exists to quantify over.  That the code really has none left is what the correspondence under repeated
-   invocation and under every permutation of small file lists checks on each run; independence of the
-   *file order* (verdict, and model up to type order) is checked there as well and is not a theorem. *)
-From Verif Require Import Base.Str Base.Outcome Model.Ast Model.Merge Proofs.MergeProofs.
+   invocation and under every permutation of small file lists checks on each run.  Proved (3-4): permuting
+   the list of files never changes whether the merge succeeds — "conflict-free" (Spec/MergeSpec.v) is
+   invariant under permutation and merge succeeds exactly on conflict-free sets (Proofs/MergeIff.v).  That a
+   successful merge of a permuted list returns the same types up to order is observed per run, not proved
+   (relation maps would have to be compared up to Go map order). *)
+From Coq Require Import Permutation.
+From Verif Require Import Base.Str Base.Outcome Model.Ast Model.Merge Spec.MergeSpec Proofs.MergeProofs Proofs.MergeIff.
 
 Theorem C12_function_of_the_list : forall fs fs' v v', fs = fs' -> v = v' -> merge fs v = merge fs' v'.
 Proof. intros; subst; reflexivity. Qed.
@@ -14,3 +18,12 @@ Proof. intros; subst; reflexivity. Qed.
 Theorem C12_error_order : forall exts all_lines raw errs raw' errs',
   apply_all exts all_lines raw errs = Some (raw', errs') -> exists more, errs' = errs ++ more.
 Proof. exact apply_all_errs. Qed.
+
+(* 3. "conflict-free" does not depend on the order of the files *)
+Theorem C12_conflict_free_is_order_free : forall fs fs', Permutation fs fs' -> conflict_free fs -> conflict_free fs'.
+Proof. exact conflict_free_perm. Qed.
+
+(* 4. hence neither does the verdict of the merge *)
+Theorem C12_verdict_independent_of_file_order : forall fs fs' v,
+  wf_modules fs -> Permutation fs fs' -> ((exists m, merge fs v = Ok m) <-> (exists m', merge fs' v = Ok m')).
+Proof. exact merge_success_order_independent. Qed.
